@@ -57,6 +57,7 @@ def jsonable(x):
 
 
 class Prop:
+    CURRENT = None
     def __init__(self, pid, title=''):
         self.pid = pid
         self.title = title
@@ -85,6 +86,7 @@ class Prop:
         self.notes = []
         # VERIF_OUT (tools only: seeded/rerun.py, selftest/run.py) redirects replays and evidence of a run against a scratch copy,
         # so that such runs neither clobber each other nor the evidence of the run against /repo itself
+        Prop.CURRENT = self
         self.out = os.environ.get('VERIF_OUT') or VERIF
         rd = os.path.join(self.out, 'replays', pid)
         os.makedirs(rd, exist_ok=True)
@@ -335,6 +337,7 @@ class Prop:
 
     # ------------------------------------------------------------------ finish
     def finish(self, level='proof', checker_cmd=None, explanation=None):
+        self.finished = True
         if ST.FINDINGS:
             # written module state (vp/state.py): one obligation per explored contract thunk
             agg = {}
@@ -385,6 +388,7 @@ class Prop:
                    solver_queries=len(E.QLOG),
                    loops_cut=self.loops, summaries_assumed=self.summaries,
                    written_module_state=ST.describe(),
+                   max_abstraction_query_time_s=round(E.ABS_MAX[0], 2),
                    cvc5_recheck_of_discharging_queries=dict(E.RECHECK) if E.THOROUGH else 'thorough tier only',
                    engine_crosscheck=self.xcheck,
                    known_findings_reported=[list(k) for k in self.known_hit],
